@@ -83,6 +83,7 @@ type peerSpec struct {
 	recSize  int    // record size of the "record" consumption policy (0: 2..4 by seed)
 	openHold int    // milliseconds OnOpen keeps the loop busy (the peer's data and its FIN pile up meanwhile)
 	budget   int    // bytes of big reply frames (0: by socket buffer size and reader speed)
+	earlyFin bool   // the peer half-closes right after sending, while it is not reading yet (the answer is still piling up)
 	sendOnly int    // the peer stops sending after this many bytes (0: it sends everything): the handler is left with an unfinished stream
 	// runtime
 	delivered int64 // bytes the handler has been given (for lock-step peers)
@@ -106,8 +107,8 @@ type vconn struct {
 	closed     bool
 	lazyLeft   int
 	dupFd      int           // descriptor obtained through Conn.Dup (ours to close), 0 if none
-	held       []byte        // what the last Next handed out in this callback (it must stay intact until the callback returns)
-	heldAt     int           // its position in the peer's stream
+	held       [][]byte      // what Next handed out in this callback (it must all stay intact until the callback returns)
+	heldAt     []int         // their positions in the peer's stream
 	floodGate  chan struct{} // closed when the asynchronous writers have issued the requests that are to pile up
 	floodOnce  sync.Once
 	floodLeft  int32         // writers that have not finished piling up yet
@@ -494,6 +495,28 @@ func splitFrame(f []byte, rng *vsup.Rng) [][]byte {
 	return append(parts, rest)
 }
 
+// lastWithEOF hands out its bytes in pieces of at most 700 and the last piece together with io.EOF.
+type lastWithEOF struct {
+	b   []byte
+	off int
+}
+
+func (r *lastWithEOF) Read(p []byte) (int, error) {
+	n := len(r.b) - r.off
+	if n > 700 {
+		n = 700
+	}
+	if n > len(p) {
+		n = len(p)
+	}
+	copy(p, r.b[r.off:r.off+n])
+	r.off += n
+	if r.off == len(r.b) {
+		return n, io.EOF
+	}
+	return n, nil
+}
+
 type captureWriter struct {
 	limit int // accept at most limit bytes in total, then fail
 	got   []byte
@@ -563,14 +586,18 @@ func (h *vhandler) OnTraffic(c Conn) Action {
 		h.rec.emit("StopReq", "src", "OnTraffic", "g", g)
 		action = Shutdown
 	}
-	if vc.held != nil {
-		// the bytes Next handed out earlier in this callback are the application's until it returns: the writes and
-		// buffer traffic in between must not have touched them
+	if len(vc.held) > 0 {
+		// the bytes Next handed out earlier in this callback are the application's until it returns: the reads, writes
+		// and buffer traffic in between must not have touched them
 		if !vc.closed && c.(*conn).opened {
-			ok := vsup.Match(vc.held, 1000+sp.id, vc.heldAt) < 0
-			h.rec.emit("ROp", "c", sp.id, "op", "Held", "req", len(vc.held), "n", 0, "ok", ok, "err", "nil", "ib", c.InboundBuffered())
+			ok, total := true, 0
+			for i, b := range vc.held {
+				ok = ok && vsup.Match(b, 1000+sp.id, vc.heldAt[i]) < 0
+				total += len(b)
+			}
+			h.rec.emit("ROp", "c", sp.id, "op", "Held", "req", total, "n", 0, "ok", ok, "err", "nil", "ib", c.InboundBuffered())
 		}
-		vc.held = nil
+		vc.held, vc.heldAt = nil, nil
 	}
 	h.rec.emit("TrafficEnd", "c", sp.id, "h", vc.h, "action", int(action), "ib", c.InboundBuffered(), "ob", c.OutboundBuffered())
 	return action
@@ -672,8 +699,8 @@ func (h *vhandler) readOps0(vc *vconn, c Conn, emitR func(op string, req, n int,
 				if i%2 == 0 {
 					b, err := c.Next(rs)
 					ok := vsup.Match(b, id, vc.consumed) < 0 && len(b) == rs
-					if err == nil && len(b) > 0 {
-						vc.held, vc.heldAt = b, vc.consumed
+					if err == nil && len(b) > 0 && len(vc.held) < 16 {
+						vc.held, vc.heldAt = append(vc.held, b), append(vc.heldAt, vc.consumed)
 					}
 					vc.consumed += len(b)
 					emitR("Next", rs, len(b), ok, err)
@@ -720,8 +747,8 @@ func (h *vhandler) readOps0(vc *vconn, c Conn, emitR func(op string, req, n int,
 			if err == nil && k > 0 {
 				ok = ok && len(b) == k
 			}
-			if err == nil && len(b) > 0 {
-				vc.held, vc.heldAt = b, vc.consumed
+			if err == nil && len(b) > 0 && len(vc.held) < 16 {
+				vc.held, vc.heldAt = append(vc.held, b), append(vc.heldAt, vc.consumed)
 			}
 			vc.consumed += len(b)
 			emitR("Next", k, len(b), ok, err)
@@ -791,7 +818,11 @@ func (h *vhandler) writeOps(vc *vconn, c Conn) {
 			n, err = c.Writev(splitFrame(f, vc.rng))
 		case "ReadFromFlush":
 			var m int64
-			m, err = c.ReadFrom(bytes.NewReader(f))
+			var src io.Reader = bytes.NewReader(f)
+			if vc.rng.Intn(2) == 0 {
+				src = &lastWithEOF{b: f} // (a reader may hand over its last bytes together with io.EOF)
+			}
+			m, err = c.ReadFrom(src)
 			n = int(m)
 			if err == nil {
 				err = c.Flush()
